@@ -104,7 +104,8 @@ deriving DecidableEq, Repr
 
 inductive Outcome
   | ok (s : Session)
-  | binderError               -- a raw duckdb.BinderException escapes from connect()
+  | binderError               -- a raw duckdb.BinderException escapes from connect() (CREATE SCHEMA in a missing catalog)
+  | bootstrapError            -- a raw DuckDB exception escapes from the information_schema / macro bootstrap after ATTACH
 deriving DecidableEq, Repr
 
 /-- `ATTACH DATABASE '<db_path>/<db>.db' | ':memory:' AS <db>` followed by the info-schema/macro bootstrap:
@@ -141,8 +142,16 @@ def stepContext (o : Opts) (w : World) : World × Session :=
   else
     ({ w with paths := w.paths ++ [(c, none)], nextConn := c + 1 }, ⟨o.db, o.sc, false, false, c⟩)
 
+/-- DuckDB resolves a one-part qualifier as a schema of the current catalog first: when the database that connect attaches
+    is named like a built-in schema (MAIN, INFORMATION_SCHEMA, PG_CATALOG), `CREATE MACRO <db>.equal_null` (and the
+    information_schema DDL) of the bootstrap is ambiguous and raises, *after* the ATTACH (conn.py:64-66; known finding
+    `C14/auto-create-db-named-like-builtin-schema`) -/
+def bootstrapFails (o : Opts) (w : World) : Bool :=
+  o.createDb && truthy o.db && !dbExists w o.DB && builtinSchema o.DB
+
 def connectWith (guarded : Bool) (o : Opts) (w : World) : Outcome × World :=
   let w1 := stepDb o w
+  if bootstrapFails o w then (.bootstrapError, w1) else
   match stepSchema guarded o w1 with
   | none => (.binderError, w1)
   | some w2 =>
